@@ -59,6 +59,13 @@ BuildErr == /\ Is("build_err")
             /\ A("C10", "rejected-dictionary-is-really-invalid", ~FitsPacking(E.D))
             /\ UNCHANGED <<dict, opts, ws, cnt, memo>>
 
+(* worker w is dropped and a new one is taken from the same tokenizer: it starts empty (no sentence,
+   no result, no counter), whatever the dropped workers held *)
+Renew == /\ Is("renew")
+         /\ A("C04", "new-worker-starts-empty", E.n = 0)
+         /\ ws' = [ws EXCEPT ![E.w] = W0] /\ cnt' = [cnt EXCEPT ![E.w] = C0]
+         /\ UNCHANGED <<dict, opts, memo>>
+
 Reset == /\ Is("reset")
          /\ A("C04", "reset-clears-result", E.n = 0)                         \* reset_sentence clears the result
          /\ ws' = [ws EXCEPT ![E.w] = [sent |-> E.s, tk |-> FALSE, top |-> <<>>]]
@@ -175,7 +182,7 @@ BigSent == /\ Is("bigsent")
 
 Summary == Is("stress_summary") /\ UNCHANGED <<dict, opts, ws, cnt, memo>>
 
-Next == Summary \/ BuildErr \/ BigSent \/ PanicStuck \/ PanicElsewhere \/ Session \/ Reset \/ Tok \/ Read \/ CInit \/ CUpd \/ Probs \/ Respace \/ OptErr
+Next == Summary \/ Renew \/ BuildErr \/ BigSent \/ PanicStuck \/ PanicElsewhere \/ Session \/ Reset \/ Tok \/ Read \/ CInit \/ CUpd \/ Probs \/ Respace \/ OptErr
 Spec == Init /\ [][Next]_vars
 
 Accepted ==
